@@ -163,3 +163,131 @@ theorem drain_not_pending (c : Cfg) (s : St) (p : ObjId) (hp : p < s.nobj) :
     · omega
 
 end Hap.Sys
+
+namespace Hap.Sys
+
+theorem sendEvents_other (s : St) (p q : ObjId) (h : q ≠ p) :
+    (sendEvents s p).1.obj q = s.obj q ∧ (sendEvents s p).1.nobj = s.nobj := by
+  simp only [sendEvents]
+  split
+  · simp [upd_apply, h]
+  · split <;> simp [upd_apply, h]
+
+theorem flush_other (c : Cfg) (s : St) (p q : ObjId) (e : Ev) (he : e = Ev.soonFlush p ∨ e = Ev.timerFire p)
+    (h : q ≠ p) : (step c s e).1.obj q = s.obj q ∧ (step c s e).1.nobj = s.nobj := by
+  rcases he with rfl | rfl
+  · simp only [step]; split
+    · have := sendEvents_other { s with obj := upd s.obj p { s.obj p with soon := (s.obj p).soon - 1 } } p q h
+      rw [this.1, this.2]; simp [upd_apply, h]
+    · exact ⟨rfl, rfl⟩
+  · simp only [step]; split
+    · exact sendEvents_other s p q h
+    · exact ⟨rfl, rfl⟩
+
+theorem run_flush_other (c : Cfg) (p q : ObjId) (h : q ≠ p) (l : List Ev)
+    (hl : ∀ e ∈ l, e = Ev.soonFlush p ∨ e = Ev.timerFire p) (s : St) :
+    (run c s l).1.obj q = s.obj q ∧ (run c s l).1.nobj = s.nobj := by
+  induction l generalizing s with
+  | nil => exact ⟨rfl, rfl⟩
+  | cons e es ih =>
+    simp only [run]
+    have h1 := flush_other c s p q e (hl e (List.mem_cons_self ..)) h
+    have h2 := ih (fun e' he' => hl e' (List.mem_cons_of_mem _ he')) (step c s e).1
+    exact ⟨h2.1.trans h1.1, h2.2.trans h1.2⟩
+
+/-- the events that drain connection `p` -/
+def drainOf (s : St) (p : ObjId) : List Ev := List.replicate (s.obj p).soon (Ev.soonFlush p) ++ [Ev.timerFire p]
+
+theorem drainOf_events (s : St) (p : ObjId) : ∀ e ∈ drainOf s p, e = Ev.soonFlush p ∨ e = Ev.timerFire p := by
+  intro e he
+  simp only [drainOf, List.mem_append, List.mem_replicate, List.mem_singleton] at he
+  rcases he with ⟨_, rfl⟩ | rfl
+  · exact Or.inl rfl
+  · exact Or.inr rfl
+
+theorem drainOf_nobj (c : Cfg) (s t : St) (p : ObjId) : (run c t (drainOf s p)).1.nobj = t.nobj := by
+  have : ∀ (l : List Ev), (∀ e ∈ l, e = Ev.soonFlush p ∨ e = Ev.timerFire p) → ∀ t : St, (run c t l).1.nobj = t.nobj := by
+    intro l hl
+    induction l with
+    | nil => intro t; rfl
+    | cons e es ih =>
+      intro t
+      simp only [run]
+      rw [ih (fun e' he' => hl e' (List.mem_cons_of_mem _ he'))]
+      rcases hl e (List.mem_cons_self ..) with rfl | rfl
+      · simp only [step]; split
+        · exact (rel_sendEvents _ p).nobj
+        · rfl
+      · simp only [step]; split
+        · exact (rel_sendEvents _ p).nobj
+        · rfl
+  exact this _ (drainOf_events s p) t
+
+/-- drain every connection in `l` -/
+def drainList (s : St) (l : List ObjId) : List Ev := l.flatMap (drainOf s)
+
+theorem drainList_quiet (c : Cfg) (s : St) (l : List ObjId) (hnd : l.Nodup) (hl : ∀ p ∈ l, p < s.nobj) (t : St)
+    (hn : t.nobj = s.nobj) (hsame : ∀ p ∈ l, t.obj p = s.obj p) :
+    (∀ p ∈ l, ¬ pendingFlush (run c t (drainList s l)).1 p) ∧
+    (∀ q, q ∉ l → (run c t (drainList s l)).1.obj q = t.obj q) ∧
+    (run c t (drainList s l)).1.nobj = s.nobj := by
+  induction l generalizing t with
+  | nil => exact ⟨fun p hp => (by cases hp), fun _ _ => rfl, hn⟩
+  | cons p ps ih =>
+    simp only [drainList, List.flatMap_cons]
+    rw [run_append]
+    have hp : p < t.nobj := by rw [hn]; exact hl p (List.mem_cons_self ..)
+    have hnd' := List.nodup_cons.mp hnd
+    -- drain p
+    have e : drainOf s p = drainOf t p := by simp [drainOf, hsame p (List.mem_cons_self ..)]
+    have h1 : ¬ pendingFlush (run c t (drainOf s p)).1 p := by rw [e]; exact drain_not_pending c t p hp
+    have h2 : ∀ q, q ≠ p → (run c t (drainOf s p)).1.obj q = t.obj q :=
+      fun q hq => (run_flush_other c p q hq _ (drainOf_events s p) t).1
+    have h3 : (run c t (drainOf s p)).1.nobj = s.nobj := by rw [drainOf_nobj]; exact hn
+    -- then the others
+    have ih' := ih hnd'.2 (fun q hq => hl q (List.mem_cons_of_mem _ hq)) (run c t (drainOf s p)).1 h3
+      (fun q hq => by
+        have hqp : q ≠ p := fun e => hnd'.1 (e ▸ hq)
+        rw [h2 q hqp]; exact hsame q (List.mem_cons_of_mem _ hq))
+    refine ⟨?_, ?_, ih'.2.2⟩
+    · intro q hq
+      rcases List.mem_cons.mp hq with rfl | hq
+      · have hob : (run c (run c t (drainOf s q)).1 (drainList s ps)).1.obj q = (run c t (drainOf s q)).1.obj q :=
+          ih'.2.1 q hnd'.1
+        unfold pendingFlush at h1 ⊢
+        simp only [drainList] at hob
+        rw [hob]; exact h1
+      · exact ih'.1 q hq
+    · intro q hq
+      have hqp : q ≠ p := fun e => hq (e ▸ List.mem_cons_self ..)
+      have hqps : q ∉ ps := fun h => hq (List.mem_cons_of_mem _ h)
+      show (run c (run c t (drainOf s p)).1 (drainList s ps)).1.obj q = t.obj q
+      rw [ih'.2.1 q hqps, h2 q hqp]
+
+/-- all pending flushes of all connections -/
+def drainAll (s : St) : List Ev := drainList s (List.range s.nobj)
+
+theorem drainAll_quiet (c : Cfg) (s : St) :
+    (∀ p, p < (run c s (drainAll s)).1.nobj → ¬ pendingFlush (run c s (drainAll s)).1 p) := by
+  have := drainList_quiet c s (List.range s.nobj) List.nodup_range (fun p hp => List.mem_range.mp hp) s rfl (fun _ _ => rfl)
+  intro p hp
+  rw [show (run c s (drainAll s)).1.nobj = s.nobj from this.2.2] at hp
+  exact this.1 p (List.mem_range.mpr hp)
+
+theorem reuseOK_noConnect (c : Cfg) (l : List Ev) (h : ∀ e ∈ l, ∀ a, e ≠ Ev.connect a) (s : St) : ReuseOK c s l := by
+  induction l generalizing s with
+  | nil => trivial
+  | cons e es ih =>
+    rw [reuseOK_cons]
+    refine ⟨?_, ih (fun e' he' => h e' (List.mem_cons_of_mem _ he')) _⟩
+    cases e with
+    | connect a => exact absurd rfl (h _ (List.mem_cons_self ..) a)
+    | _ => trivial
+
+theorem drainAll_noConnect (s : St) : ∀ e ∈ drainAll s, ∀ a, e ≠ Ev.connect a := by
+  intro e he a
+  simp only [drainAll, drainList, List.mem_flatMap] at he
+  obtain ⟨p, _, hp⟩ := he
+  rcases drainOf_events s p e hp with rfl | rfl <;> simp
+
+end Hap.Sys
